@@ -273,3 +273,55 @@ def abstract_check(pc, goal, timeout_ms):
     except z3.Z3Exception:
         return None
     return "unsat" if r == z3.unsat else None
+
+
+class SharedProver:
+    """stage-1 prover shared by all obligations of one function: one abstraction, one incremental solver,
+    hypotheses selected per obligation through indicator literals (check-assumptions)"""
+
+    def __init__(self):
+        self.ab = Abstractor()
+        self.ab._extract_info = {}
+        self.ab._cat_info = {}
+        self.s = z3.Solver()
+        self.lits = {}
+        self.bad = set()
+        self.nax = 0
+        self.keep = []
+
+    def prove(self, pc, goal, timeout_ms):
+        ab, s = self.ab, self.s
+        lits = []
+        try:
+            for t in pc:
+                i = t.get_id()
+                if i in self.bad:
+                    continue
+                p = self.lits.get(i)
+                if p is None:
+                    try:
+                        tt = ab.tr(t)
+                    except (Unsupported, z3.Z3Exception, RecursionError):
+                        self.bad.add(i)
+                        self.keep.append(t)
+                        continue
+                    p = z3.Bool("h!%d" % i)
+                    s.add(z3.Implies(p, tt))
+                    self.lits[i] = p
+                    self.keep.append(t)
+                lits.append(p)
+            g = ab.tr(goal)
+        except (Unsupported, z3.Z3Exception, RecursionError):
+            return None
+        self.keep.append(goal)
+        q = z3.Bool("g!%d!%d" % (goal.get_id(), len(self.keep)))
+        s.add(z3.Implies(q, z3.Not(g)))
+        for a in ab.axioms[self.nax:]:
+            s.add(a)
+        self.nax = len(ab.axioms)
+        s.set("timeout", timeout_ms)
+        try:
+            r = s.check(*(lits + [q]))
+        except z3.Z3Exception:
+            return None
+        return "unsat" if r == z3.unsat else None
